@@ -84,8 +84,10 @@ func scenF1(sub bool) func(s *Sim) {
 		s.Submit(createP("r", Base+50000, nil))
 		s.ticks(4)
 		s.Advance(1)
-		// same tick: the completion is dispatched first, so its update commits before the registration's insert
+		// the registration starts one tick after the completion: it reads "pending" in the flush in which
+		// the completion's update commits, and its guarded insert then affects no row
 		s.Submit(completeP("p", promise.Resolved))
+		s.Tick()
 		if sub {
 			s.Submit(subscribeR("s1", "p"))
 		} else {
